@@ -168,6 +168,9 @@ def run_case(case, rec):
     base = dict(pars, scale=1.0, background=0.0)
     for j in range(len(qx)):
         qhat = np.array([qx[j], qy[j], 0.0])/math.hypot(qx[j], qy[j])
+        # the same direction formed with the other common arithmetic (one ulp apart): models that amplify a last-bit change
+        # of an SLD by many orders of magnitude (spherical_sld at q*size << 1) are judged with the response to that change
+        qhat_b = np.array([qx[j], qy[j], 0.0])*(1.0/math.sqrt(qx[j]*qx[j] + qy[j]*qy[j]))*(1.0 + 2.3e-16)
         k1 = model.make_kernel([qx[j:j+1], qy[j:j+1]])
 
         def call(fn):
@@ -184,6 +187,12 @@ def run_case(case, rec):
         evenness = max(evenness, abs(Ie2 - Ie2m)/(abs(Ie2) + 1e-300))
         exp[j] = w["dd"]*Idd + w["uu"]*Iuu + w["du"]*(Ie1 + Ie2m) + w["ud"]*(Ie1 + Ie2)
         slack[j] = 1e-8*(abs(Idd) + abs(Iuu) + 2*abs(Ie1) + abs(Ie2) + abs(Ie2m))
+        qhat_a, qhat = qhat, qhat_b
+        alt = w["dd"]*call(lambda rho, Mp: rho - float(np.dot(P, Mp))) + w["uu"]*call(lambda rho, Mp: rho + float(np.dot(P, Mp))) \
+            + (w["du"] + w["ud"])*call(lambda rho, Mp: float(np.dot(e1, Mp))) \
+            + w["du"]*call(lambda rho, Mp: -float(np.dot(e2, Mp))) + w["ud"]*call(lambda rho, Mp: float(np.dot(e2, Mp)))
+        qhat = qhat_a
+        slack[j] += 20.0*abs(alt - exp[j])
         k1.release()
     exp = scale*exp + bg
     ok = bool(np.all(np.abs(I - exp) <= 1e-9*np.abs(exp) + scale*slack + 1e-300))
